@@ -75,11 +75,32 @@ func runWD(c *Ctx, s *Sink) {
 				s.Undecided(nil, key2, fd.Pos(), "no writing goroutine")
 			} else {
 				var lastWrite, closePos, sigPos token.Pos
+				wdDefs := collectDefs(info, fd)
 				for _, st := range lit.Body.List {
 					ast.Inspect(st, func(n ast.Node) bool {
 						call, ok := n.(*ast.CallExpr)
 						if !ok {
 							return true
+						}
+						// a helper that receives the sink and writes to it
+						if body, cinfo, bind := c.calleeSource(info, wdDefs, call); body != nil {
+							for po, arg := range bind {
+								if tv, ok := info.Types[arg]; ok && sinkTypes[sinkTypeName(tv.Type)] {
+									ast.Inspect(body, func(k ast.Node) bool {
+										if c2, ok := k.(*ast.CallExpr); ok {
+											if s2, ok := c2.Fun.(*ast.SelectorExpr); ok && rootObj(cinfo, s2.X) == po {
+												switch s2.Sel.Name {
+												case "Write":
+													lastWrite = call.Pos()
+												case "Close":
+													closePos = call.Pos()
+												}
+											}
+										}
+										return true
+									})
+								}
+							}
 						}
 						if sel, ok := call.Fun.(*ast.SelectorExpr); ok {
 							if tv, ok := info.Types[sel.X]; ok && sinkTypes[sinkTypeName(tv.Type)] {
